@@ -304,9 +304,16 @@ def do_check(pid, tier, seed, args, workdir, t_start):
     known = load_known(pid)
     all_results = []
     load_s = 0.0
+    load_failures = []
     for pkgdir, fl in files.items():
-        res, ls = run_pkg(pid, pkgdir, fl, tier, os.path.join(workdir, pkgdir.replace('/', '_')), args.only,
-                          args.jobs, seed)
+        try:
+            res, ls = run_pkg(pid, pkgdir, fl, tier, os.path.join(workdir, pkgdir.replace('/', '_')), args.only,
+                              args.jobs, seed)
+        except Exception as e:
+            # the package plus its harnesses does not load (e.g. the code was restructured under a
+            # white-box harness): nothing was decided for it - inconclusive, never a pass
+            load_failures.append((pkgdir, '%s: %s' % (type(e).__name__, e)))
+            continue
         load_s += ls
         all_results += res
         if args.verbose:
@@ -429,6 +436,8 @@ def do_check(pid, tier, seed, args, workdir, t_start):
             inconclusive.append(('cross-check', 'solver-disagreement', '%s on %s' % (sname, c['disagree_labels'])))
     for (pkgdir, log) in replay_errors:
         inconclusive.append((pkgdir, 'replay-build-error', log[-1200:]))
+    for (pkgdir, msg) in load_failures:
+        inconclusive.append((pkgdir, 'harness-load-error', msg + ' (see the ssaserve load errors above)'))
     if not all_results and not statics:
         inconclusive.append((pid, 'no-harness', 'nothing ran'))
     if nviol:
